@@ -19,6 +19,8 @@ NOT_DECIDED = "CSV number parsing; dtype of integer/byte columns after scaling (
 TRUSTED = ("CPython ast", "S1 particle layout", "numpy.loadtxt semantics")
 TECHNIQUE = "static analysis: polynomial interpretation of the particle header bookkeeping against the layout; path and pairing rules"
 
+from . import loader_folds as lfold
+
 
 def r1_r2(run, tree):
     run.rule("C14.R1", "particle header layout; typed read/skip agreement", "D1 + S1", "S1", floor=5)
@@ -39,7 +41,7 @@ def r4_r5(run, tree):
 
 def r6(run, tree):
     run.rule("C14.R6", "sort on load", "path rule", "", floor=3)
-    io2.check_sortby(run, tree)
+    lfold.check_load(run, tree)
     dg.check_sortby(run, tree)
 
 
